@@ -197,6 +197,8 @@ BOOL_T = [
     ("beq", "b", "{b} == {b}"), ("bne", "b", "{b} != {b}"), ("blt", "b", "{b} < {b}"), ("bge", "b", "{b} >= {B}"),
     ("bpow", "b", "{b} ** {k}"), ("beq_K", "b", "{b} == {K}"), ("blt_K", "b", "{b} < {K}"), ("bne_Kr", "b", "{K} != {b}"),
     ("bge_Kr", "b", "{K} >= {b}"),
+    ("lt_ib", "b", "{i} < {b}"), ("gt_ib", "b", "{i} > {b}"), ("le_ib", "b", "{i} <= {b}"), ("ge_ib", "b", "{i} >= {b}"),
+    ("lt_bi", "b", "{b} < {i}"), ("ge_bi", "b", "{b} >= {i}"), ("eq_ib", "b", "{i} == {b}"), ("ne_ib", "b", "{i} != {b}"),
     ("ite_b", "i", "if_then_else({b}, {b}, {b})"), ("ite_bi", "i", "if_then_else({b}, {b}, {i})"), ("ite_ib", "i", "if_then_else({b}, {i}, {b})"),
     ("ite_bK", "i", "if_then_else({b}, {b}, {K})"), ("ite_cmp_i", "i", "if_then_else({b}, {i} < {i}, {i})"),
     ("int_and_bool", "b", "{b} & ({b} + 0)"),
